@@ -129,13 +129,21 @@ class Interp:
         self.depth = 0
         self.notes = []
         self.sym_ext = {}         # id(empty python list) -> (list, SymSeq) after `xs.extend(<symbolic sequence>)`
+        self._pcs = [0, False]
         Obj._n = 0
 
-    def explore(self, body, max_paths=20000):
-        """Run body(I) once per feasible path.  body returns nothing; obligations are recorded."""
-        work = [[]]
+    def explore(self, body, max_paths=20000, start=None, budget=None):
+        """Run body(I) once per feasible path.  body returns nothing; obligations are recorded.
+        start: decision prefixes to explore (default: the root); budget: stop after that many paths and return the
+        unexplored prefixes (path-level sharding: any worker can continue from a prefix, paths are re-executed from the
+        function entry with the decisions of the prefix)."""
+        work = [list(p) for p in start] if start is not None else [[]]
         n = 0
+        self.leftover = []
         while work:
+            if budget is not None and n >= budget:
+                self.leftover = work
+                return n
             prefix = work.pop()
             self.begin_path(prefix)
             n += 1
@@ -313,7 +321,7 @@ class Interp:
             return rec.status == "discharged"
         self.solver.push()
         self.solver.add(z3.Not(formula))
-        if smt.has_strings(formula) or any(smt.has_strings(c) for c in self.pc):
+        if smt.has_strings(formula) or self._pc_has_strings():
             r = z3.unknown       # string goals go to the external solvers (hard time limits)
         else:
             try:
@@ -341,6 +349,18 @@ class Interp:
         self.queries += 1
         self.records.append(ObRecord(oid, status, backend, ms, self.decisions, model, detail, ftxt))
         return status == "discharged"
+
+    def _pc_has_strings(self):
+        """does the path condition mention strings (checked incrementally: only the formulas added since the last call)"""
+        c = self._pcs
+        n = len(self.pc)
+        if n < c[0]:
+            c[0], c[1] = 0, False        # the path condition shrank (speculative evaluation was rolled back): recompute
+        for f in self.pc[c[0]:]:
+            if not c[1] and smt.has_strings(f):
+                c[1] = True
+        c[0] = n
+        return c[1]
 
     def lemma(self, oid, formula, hyps=()):
         """A stated lemma: proved on its own (no path condition, only `hyps`), recorded as an obligation,
@@ -1526,6 +1546,8 @@ class Interp:
                 return self.call_func(m[1], [v, idx], {})
         if v is None:
             self.raise_("TypeError", "'NoneType' object is not subscriptable")
+        if isinstance(v, (int, float)) or (isinstance(v, SV) and v.k in ("int", "real", "bool")):
+            self.raise_("TypeError", "'int' object is not subscriptable")
         raise Unsupported(f"index on {type(v).__name__}")
 
     def slice(self, v, lo, hi, st):
@@ -1552,6 +1574,10 @@ class Interp:
         if isinstance(v, (list, tuple, str, bytes)) and not isinstance(lo, SV) and not isinstance(hi, SV):
             r = v[lo:hi]
             return wrap(r) if wrap else r
+        if isinstance(v, (int, float)) or (isinstance(v, SV) and v.k in ("int", "real", "bool")):
+            self.raise_("TypeError", "'int' object is not subscriptable")
+        if v is None:
+            self.raise_("TypeError", "'NoneType' object is not subscriptable")
         if self.kind_of(v) in ("bytes", "str"):
             e = self.z(v)
             ln = z3.Length(e)
